@@ -29,7 +29,9 @@ CLAIMS = {
          "(dim so(m+1)), of a general type-A star 2^(k-1)*dim so(r+3) strings — each equal to the dimension of the name the model classifier reports for those legs "
          "(C01_star, C01_path, C01_typeA), and through C02_closure_partial the reported dimension equals |Clo generators| for every input whose guarded reduction ends in "
          "such a star with independent vertices (C01_from_C02_*); the span test of the repaired check_dependency_one_leg is proved correct (C01Star_inSpan); the census->name "
-         "table is tied to the Python by census_tie; the library's own is_algebra comparison is proved sound w.r.t. the invariants (C01Names_sound_classifier). "
+         "table is tied to the Python by census_tie; the library's own is_algebra comparison is proved sound w.r.t. the invariants (C01Names_sound_classifier). Also proved: closure, size and invariants add over the connected components "
+         "(C01_componentwise_full), full invariants for every type-A input under the guard (C01_componentwise_typeA_full), the dimension of the reported name = |Clo| for every independent "
+         "realisation of a B1/B2/B3 star (C01_typeB*_dim), and the dimension clause per input at any n under the verified certificate (C01_cert_dim). "
          "Per input (n<=5 quick, n<=6 thorough; every collection of <=3 strings on 2 qubits): invariants of the verified closure (size, centre, per block "
          "simple dimension / centraliser / copies) must equal those of the reported name. That the reduction is correct for all inputs is the classification "
          "theorem of arXiv:2408.00081 and is NOT proved.",
@@ -49,8 +51,8 @@ CLAIMS = {
          "certify most non-member answers; completeness in general is not proved. Per input: every query also goes through the guarded run (`mguards`, verdict must equal "
          "the implementation's) and is compared with the Lean-verified commutator closure (all 4^n single queries for n<=3, sampled query sets to n=5/6, queries on edited collections).",
          "Lean soundness proof under per-query guards + Lean-verified closure checker per query + differential correspondence"),
- "C09": ("other", "6.C09", "Proved in Lean for EVERY classification (C09_name_dim): get_dla_dim() answers iff get_algebra() answers and equals the sum over the summands of the reported name of multiplicity x dimension (u(1) = 1) — the model of the two methods is tied to the code by correspondence. Partial for the first clause: get_dla_dim == size of the Lean-verified closure per input (n<=6); name-dimension consistency also checked on the implementation at any n (to 10/14 qubits).",
-         "Lean-verified closure size + name-dimension arithmetic per input + differential correspondence"),
+ "C09": ("other", "6.C09", "Proved in Lean for EVERY classification (C09_name_dim): get_dla_dim() answers iff get_algebra() answers and equals the sum over the summands of the reported name of multiplicity x dimension (u(1) = 1) — the model of the two methods is tied to the code by correspondence. First clause: a per-input certificate verified in Lean (Model/Cert.lean, C09_cert): if certDim G = true — guarded reduction per component without failed guard, legs a point / A / B1 / B3 / B2 profile with pattern and independence checks or one dependency with q=1 — then get_dla_dim() = |Clo G| at ANY n, no enumeration; evaluated on every input to 16/24 qubits (>99.9% certified, the rest counted) and cross-checked against the Lean-verified closure size for n<=6; that the certificate accepts is not proved.",
+         "Lean-verified per-input certificate (any n) + Lean-verified closure size (n<=6) + name-dimension arithmetic + differential correspondence"),
  "C10": ("proof", "6.C10", "Lean refinement proof, parametric in the classifier: abstract state = list of generators, abstract step = the plain list edit; invariant "
          "'cache empty or = classify(current list)' is kept by every one of the 9 public edits with every argument (error exits included) and by every query; "
          "hence along EVERY finite history of edits and queries each answer equals the answer of a freshly built collection (C10_history), read-only queries "
@@ -104,25 +106,28 @@ CLAIMS = {
          "simulation theorems between the two builders for the non-drifted steps.",
          "exact Lean model of the drifted recorder + differential correspondence + Lean-verified closure per input; refutation and simulation theorems"),
  "C19": ("other", "6.C19", "Translator tie: G_LIE and two_local_algebras(n) for 3<=n<=40 (28x38 rows, exact text and parsed) are regenerated from the live package on every run and "
-         "proved equal to the Lean closed forms (tl_table_tie, gLie_tie, iso_tie). Proved for ALL n>=3: name arithmetic and the low-rank coincidences; families a0, b0, b1 "
-         "(commuting: closure = generators, that many u(1)), a1 (closure = intervals, n(n-1)/2 = dim so(n)), b3 (all single-site strings, 3n). All other (family,n) decided "
-         "per input by the Lean-verified closure invariants for 3<=n<=6/7 (size at 8) and classifier-vs-table to n=16/40. Refuted (known findings): a11, a12, a17 at n=3.",
-         "generated-table tie theorems + all-n closure theorems for 5 families + Lean-verified closure per (family,n) + classifier correspondence"),
- "C05": ("other", "6.C05", "Partial proof + exact model of the search + verified per-output decision + refutation. The WHOLE compile pipeline (subsystem_compiler, left_map_over_a, _case3_best_reordering with its interleaving generators and caps, _bfs_case3 with depth/node caps, compile, compile_target) is modelled in Lean (Model/CompilerSearch.lean, structural recursion on fuel) and tied to the code by exact correspondence: same returned sequence or same exception type raised by the same function for all 4^N-1 targets, N<=4 (thorough N<=5), every 2<=k<N, samples 6<=N<=8, and helper by helper. Proved in Lean for ALL N, k, targets, sequences: the executable validator validSeq accepts exactly the sequences that are non-empty, inside construct_universal_set(N,k) (closed form proved) and whose nested commutator of the 2^N x 2^N matrices in the documented orientation equals c*M(target), c != 0; orientation lemma; C05_verified_return: every sequence leaving compile through a return guarded by _nested_commutator_result == target reads as the target (never zero, never another string); C05_wI_valid: the W=I branch returns only valid sequences. The property is FALSE on the tree: C05_refuted_model / C05_refuted_zero_model are kernel-evaluated runs of the model ((3,2,YIY) -> [XIZ,YII,XIZ] via the unverified return). Per output: every returned sequence is judged by the compiled validator (dense numpy cross-check N<=4); the 1709 failing targets with N<=5 are recorded findings (known/compiler_failures.json, checked on every run to be exactly what the model produces); a failure at N>=6 is known only if the model returns the same sequence through the same unverified return with the same kind; anything else is a violation. NOT proved: universal-set membership on the verified returns of V!=I / V=I; the unverified returns; that the model's fuel is never exhausted.",
+         "proved equal to the Lean closed forms (tl_table_tie, gLie_tie, iso_tie). Proved for ALL n>=3: name arithmetic and the low-rank coincidences; the DIMENSION clause of all 28 rows with the closure in closed form "
+         "(C19_dimension_all; a11, a12, a17 from n>=4, their n=3 rows are refuted = known findings); nine rows with all invariants (C19_rows). Invariants beyond the dimension for the other "
+         "19 rows and the classifier clause are decided per (family,n) by the Lean-verified closure invariants for 3<=n<=6/7 (size at 8) and classifier-vs-table to n=16/40.",
+         "generated-table tie theorems + all-n closed-form closure theorems for all 28 families (dimension) + Lean-verified closure per (family,n) + classifier correspondence"),
+ "C05": ("other", "6.C05", "Partial proof + exact model of the search + verified per-output decision + refutation. The WHOLE compile pipeline (subsystem_compiler, left_map_over_a, _case3_best_reordering with its interleaving generators and caps, _bfs_case3 with depth/node caps, compile, compile_target) is modelled in Lean (Model/CompilerSearch.lean, structural recursion on fuel) and tied to the code by exact correspondence: same returned sequence or same exception type raised by the same function for all 4^N-1 targets, N<=4 (thorough N<=5), every 2<=k<N, samples 6<=N<=8, and helper by helper. Proved in Lean for ALL N, k, targets, sequences: the executable validator validSeq accepts exactly the sequences that are non-empty, inside construct_universal_set(N,k) (closed form proved) and whose nested commutator of the 2^N x 2^N matrices in the documented orientation equals c*M(target), c != 0; orientation lemma; C05_verified_return: every sequence leaving compile through a return guarded by _nested_commutator_result == target reads as the target (never zero, never another string); C05_wI_valid: the W=I branch returns only valid sequences. The property is FALSE on the tree: C05_refuted_model / C05_refuted_zero_model are kernel-evaluated runs of the model ((3,2,YIY) -> [XIZ,YII,XIZ] via the unverified return). Per output: every returned sequence is judged by the compiled validator (dense numpy cross-check N<=4); the 1709 failing targets with N<=5 are recorded findings (known/compiler_failures.json, checked on every run to be exactly what the model produces); a failure at N>=6 is known only if the model returns the same sequence through the same unverified return with the same kind; anything else is a violation. NOT proved: universal-set membership on the verified returns of V!=I / V=I; the unverified returns; that the model's fuel is never exhausted. ALSO PROVED for all N, 2<=k<N: every return guarded by the self-check (W=I, the three V!=I candidates, all four case-3 phases) is Valid, i.e. also INSIDE the universal set (C05_verified_return_valid), so every invalid output leaves through one of the three returns without self-check (C05_failures_only_unverified); compile_target never runs out of fuel (compileTarget_total).",
          "exact Lean model of the search diffed against the implementation + Lean-verified validator on every returned sequence + kernel-evaluated refutation + soundness theorems for the verified returns"),
- "C06": ("other", "6.C05", "Refuted inside Lean, partially explained by proof. The whole search is modelled exactly (see C05) and tied by correspondence (sequence or exception type@function). C06_refuted / C06_refuted_left_only / C06_refuted_even_k: kernel-evaluated runs of the model of compile_target raising RuntimeError in left_map_over_a / compile at (4,3,IXXX), (4,3,IXXI), (5,2,IIXXX). Proved for ALL inputs: front end (guards, slicing) and guards end to end; left_search_sound (a returned path is a walk of the generator graph from start to goal) and left_search_complete ('Left map BFS failed.' is raised only if the goal is unreachable); for every N and odd k: no sequence over the universal set evaluates to a Q=0 target (C06_obstruction_odd), the left search cannot join strings of different Q, and the model NEVER returns for V x I..I with an even number of non-identity letters in V (C06_fails_odd_wI). The harness runs compile_target on all targets N<=4/5 and samples to N=8; the 612 raising targets with N<=5 are recorded findings (= what the model produces, checked); a raise at N>=6 is known only if the model raises the same type in the same function; any other raise is a violation. NOT proved: that the model's fuel never runs out (separate error value, never observed); that the even-k raises are unavoidable.",
+ "C06": ("other", "6.C05", "Refuted inside Lean, partially explained by proof. The whole search is modelled exactly (see C05) and tied by correspondence (sequence or exception type@function). C06_refuted / C06_refuted_left_only / C06_refuted_even_k: kernel-evaluated runs of the model of compile_target raising RuntimeError in left_map_over_a / compile at (4,3,IXXX), (4,3,IXXI), (5,2,IIXXX). Proved for ALL inputs: front end (guards, slicing) and guards end to end; left_search_sound (a returned path is a walk of the generator graph from start to goal) and left_search_complete ('Left map BFS failed.' is raised only if the goal is unreachable); for every N and odd k: no sequence over the universal set evaluates to a Q=0 target (C06_obstruction_odd), the left search cannot join strings of different Q, and the model NEVER returns for V x I..I with an even number of non-identity letters in V (C06_fails_odd_wI). The harness runs compile_target on all targets N<=4/5 and samples to N=8; the 612 raising targets with N<=5 are recorded findings (= what the model produces, checked); a raise at N>=6 is known only if the model raises the same type in the same function; any other raise is a violation. NOT proved: that the model's fuel never runs out (separate error value, never observed); that the even-k raises are unavoidable. ALSO PROVED: the model never runs out of fuel on any input (compileTarget_total) and left_map_over_a returns iff a walk exists (left_search_decides); for every even k and every N the left walk graph is connected and compile_target RETURNS a Valid sequence on every V x I..I and V x X_j / Z_j, V != I (C06_holds_even_wI, C06_holds_even_single); exact exceptions for odd k on those families.",
          "exact Lean model of the search diffed against the implementation (exhaustive/sampled) + kernel-evaluated raise + BFS soundness/completeness + odd-k obstruction theorems"),
  "C07": ("other", "6.C07", "Size/distinctness/length of construct_universal_set: Lean proof for ALL N and 2<=k<N about the model (closed form), model tied by exhaustive correspondence N<=10/12. "
          "Generation: REFUTED in Lean for every N and every odd k (quadratic invariant Q with polar form omega, all 2N+1 generators have Q=1, X_{k+1} has Q=0), kernel anchor (4,3); "
-         "for even k generation is kernel-checked for N<=4 and decided per (N,k) by the Lean-verified closure checker for N<=6/8 (+ Python closure, + classifier get_algebra()==su(2^N) to "
-         "N=10/14). The all-N universality for even k (arXiv:2408.03294) is NOT proved.",
-         "Lean proof (size, refutation for all odd k) + Lean-verified closure checker per (N,k) + differential correspondence"),
+         "PROVED for every even k and every N (C07_even_universal, C07_even_count: the closure of the model's set is exactly the 4^N-1 non-identity strings; left-walk connectivity + "
+         "induction on the right block), hence C07_generation_iff_even: for all 2<=k<N generation holds iff k is even. The implementation's printed set is additionally closed by the "
+         "Lean-verified checker for N<=6/8 (+ Python closure) and classified (get_algebra()==su(2^N), also with a recorder attached) to N=10/14; the classifier clause is not a Lean statement.",
+         "Lean proof (size; generation iff k even, all N) + Lean-verified closure checker per (N,k) + differential correspondence"),
  "C16": ("other", "6.C16", "Proved in Lean for ALL n and all non-empty collections (exact Gaussian rationals): every returned quadratic symmetry commutes with g(x)1 + 1(x)g for every member g "
          "(involution s <-> s*g on a component); distinct symmetries are trace-orthogonal with non-zero norm; the twirl (rational form Q*tr(Q^H M)/tr(Q^H Q) of the normalised code path) "
          "never raises on 2n-qubit operands, is linear, idempotent, fixes every symmetry, its output commutes, the residual is orthogonal to every symmetry, and it is self-adjoint "
-         "(orthogonal projector); the symmetries are linearly independent members of the commutant (count <= dimension). NOT proved: completeness (count >= dimension, "
-         "arXiv:2502.16404) — explicit hypothesis of C16_partial, decided per input by an exact null-space computation (n<=2 quick, 3 thorough). Floats and sqrt compared at 1e-9.",
-         "Lean proofs (commutation, orthogonality, projector algebra, independence) + completeness per input by exact rank + differential correspondence"),
+         "(orthogonal projector); the symmetries are linearly independent members of the commutant (count <= dimension); COMPLETENESS is proved as well (C16_complete, C16_count, C16_twirl_is_projection): every matrix "
+         "commuting with all g(x)1+1(x)g is the combination of the returned symmetries, their number is the finrank of the commutant, the twirl is the unique orthogonal projection onto it — "
+         "C16_full is the whole statement without hypothesis, about the model. The count is still re-decided per input on the implementation's printed basis by an exact null-space "
+         "computation (n<=2 quick, 3 thorough). Floats and sqrt compared at 1e-9.",
+         "Lean proofs (commutation, orthogonality, projector algebra, independence, completeness) + exact rank per input on the implementation + differential correspondence"),
 }
 PENDING = {}
 ACTIVE = ["C04", "C18", "C17", "C14", "C01", "C02", "C08", "C09", "C10", "C15", "C12", "C13", "C03", "C20", "C11", "C19", "C05", "C06", "C07", "C16"]
